@@ -352,6 +352,15 @@ func runBisect(c *hlib.Ctx, n int) {
 	md := modeF
 	for i := 0; i < n/3; i++ {
 		k := 2 + c.Rng.Intn(3)
+		if i%3 == 2 {
+			// every degree: table rows and the recursive fallback (16, 17 points); InverseX evaluates the
+			// SAME curve value 65 times, so this also sees an Eval that disturbs its receiver
+			k = bezLen(c)
+			if c.Rng.Intn(3) == 0 {
+				k = 15 + c.Rng.Intn(3)
+			}
+			c.Stat(fmt.Sprintf("c17.bisect.len%02d", k), 1)
+		}
 		xs := make([]float64, k)
 		for j := range xs {
 			xs[j] = anyFloat(c, 4)
